@@ -1,6 +1,6 @@
 (* C02 — Compound-command header paths resolve to exactly the SCPI-designated handler
    Statements only: each theorem is closed by `exact` of a lemma proved in the *_proofs.v files. *)
-From VF Require Import Base Gen_Errors Lexer Mnemonic Grammar Response Tree HeaderSpec Header_proofs.
+From VF Require Import Base Gen_Errors Lexer Mnemonic Grammar Response Tree HeaderSpec Header_proofs MessageSpec Message_proofs.
 Open Scope N_scope.
 
 Section C02_statements.
@@ -56,6 +56,11 @@ Theorem C02_message_starts_at_root : forall (root : tree D) toks d f,
   run_tokens root toks d f = unit_loop (S (length toks)) root root (mkX toks d f []).
 Proof. apply message_starts_at_root. Qed.
 
+Theorem C02_message_semantics : forall (root : tree D) (m : msg) (d : D) (f : fmt),
+  wf_tree root -> wf_msg m = true ->
+  run root (render_msg m) d f = Val (spec_message root m d f).
+Proof. apply message_semantics. Qed.
+
 End C02_statements.
 
 Print Assumptions C02_resolve_sound.
@@ -70,3 +75,4 @@ Print Assumptions C02_unit_absolute.
 Print Assumptions C02_unit_common_keeps_context.
 Print Assumptions C02_unit_relative.
 Print Assumptions C02_message_starts_at_root.
+Print Assumptions C02_message_semantics.
